@@ -24,7 +24,7 @@ from ..common import enc_str
 HEADERS = ["a", "b", "col 3", "x,y", 'q"uote', "é", "A", "value", "1", "new\nline", " lead", "", "a"]
 DOUBLES = [0.0, -0.0, 1.0, -1.0, 0.1, 1 / 3.0, 5e-324, 2.2250738585072014e-308, 2.225073858507201e-308, 1.7976931348623157e+308, -1.7976931348623157e+308,
            1e16, 1e15, 123456789.12345679, 9007199254740993.0, 1e-7, 1.5e-5, 0.30000000000000004, 2.5, -99.0, 1e22, 1e23, 4.9e-324, 1e-300, 3.141592653589793]
-CELLS = ["1", "2.5", "-3", " 4 ", "1e3", "1_0", ".5", "5.", "+7", "0", "-0.0", "1E-2", "007"]
+CELLS = ["1", "2.5", "-3", "2.7", "-1.6", "0.9", "3.5", "1.5", "-0.5", "99.99", " 4 ", "1e3", "1_0", ".5", "5.", "+7", "0", "-0.0", "1E-2", "007"]
 BAD_CELLS = ["x", "", "1,5", "--", "NULL", "1 2", "0x10", "1e", "nan", "inf"]
 
 
